@@ -104,10 +104,12 @@ def rows():
             if r[:2] != cc or r[2:11] != c.zfill(9):
                 return 'ISIN %r does not embed %s %r' % (r, cc, c)
         return chk
-    R.append(dict(name='cusip.to_isin', src='cusip', convert=lambda x: M('cusip').to_isin(x), check=mk_isin('US')))
+    def special(c, x):
+        return 'private-placement-character' if any(ch in '*@#' for ch in x) else 'alphanumeric'
+    R.append(dict(name='cusip.to_isin', src='cusip', convert=lambda x: M('cusip').to_isin(x), check=mk_isin('US'), trigger=special))
     R.append(dict(name='gb.sedol.to_isin', src='gb.sedol', convert=lambda x: M('gb.sedol').to_isin(x), check=mk_isin('GB')))
     R.append(dict(name='de.wkn.to_isin', src='de.wkn', convert=lambda x: M('de.wkn').to_isin(x), check=mk_isin('DE')))
-    R.append(dict(name='isin.from_natid[US]', src='cusip', convert=lambda x: M('isin').from_natid('us', x), check=mk_isin('US')))
+    R.append(dict(name='isin.from_natid[US]', src='cusip', convert=lambda x: M('isin').from_natid('us', x), check=mk_isin('US'), trigger=special))
     R.append(dict(name='isin.from_natid[GB]', src='gb.sedol', convert=lambda x: M('isin').from_natid('GB', x), check=mk_isin('GB')))
     R.append(dict(name='isin.from_natid[DE]', src='de.wkn', convert=lambda x: M('isin').from_natid('de', x), check=mk_isin('DE')))
 
@@ -123,7 +125,8 @@ def rows():
                 return '%s(%r) = %r, not the source %r' % (back, res, b[1:2], c)
         return chk
     R.append(dict(name='es.ccc.to_iban', src='es.ccc', convert=lambda x: M('es.ccc').to_iban(x), check=mk_iban('es.ccc', 'es.iban', 'to_ccc')))
-    R.append(dict(name='no.kontonr.to_iban', src='no.kontonr', convert=lambda x: M('no.kontonr').to_iban(x), check=mk_iban('no.kontonr', 'no.iban', 'to_kontonr')))
+    R.append(dict(name='no.kontonr.to_iban', src='no.kontonr', convert=lambda x: M('no.kontonr').to_iban(x), check=mk_iban('no.kontonr', 'no.iban', 'to_kontonr'),
+                  trigger=lambda c, x: 'short-or-blank-padded-account' if len(c) < 11 or x != x.strip() else 'full-length-account'))
 
     def chk_iban_to(natmod):
         def chk(c, x, res):
@@ -367,6 +370,11 @@ def add(viols, sig, what, witness):
         viols[sig] = {'sig': sig, 'what': what, 'count': 1, 'witness': witness}
 
 
+def trig(row, c, x):
+    """Rows with a recorded finding name the input class, so that the finding cannot hide another failure of the row."""
+    return ('|' + row['trigger'](c, x)) if row.get('trigger') else ''
+
+
 def run_row(row, tier, rng, viols, keys, counters):
     from stdnum.exceptions import ValidationError
     evals = 0
@@ -395,7 +403,7 @@ def run_row(row, tier, rng, viols, keys, counters):
                     '%s(%r) raised %s for a valid %s' % (row['name'], x, type(e).__name__, src), {'row': row['name'], 'x': x, 'canon': c})
                 continue
             except Exception as e:  # noqa: B902
-                add(viols, 'C08|%s|conversion-raises-%s' % (row['name'], type(e).__name__),
+                add(viols, 'C08|%s|conversion-raises-%s%s' % (row['name'], type(e).__name__, trig(row, c, x)),
                     '%s(%r) raised %r' % (row['name'], x, e), {'row': row['name'], 'x': x, 'canon': c})
                 continue
             keys.add((row['name'], c, pclass))
@@ -403,7 +411,7 @@ def run_row(row, tier, rng, viols, keys, counters):
             evals += 2
             if problem:
                 kind = 'refusal-missing' if row.get('refusal') else 'target-rejects' if ' not a valid' in problem or ' is not valid' in problem else 'identity-lost'
-                sig = 'C08|%s|%s' % (row['name'], kind)
+                sig = 'C08|%s|%s%s' % (row['name'], kind, trig(row, c, x))
                 add(viols, sig, '%s(%r): %s' % (row['name'], x, problem), {'row': row['name'], 'x': x, 'canon': c})
     return evals
 
